@@ -1,6 +1,8 @@
 package imapclient
 
 import (
+	"fmt"
+
 	"github.com/emersion/go-imap/v2"
 	"github.com/emersion/go-imap/v2/internal/imapwire"
 )
@@ -50,6 +52,9 @@ func (c *Client) handleSort() error {
 		var num uint32
 		if !c.dec.ExpectNumber(&num) {
 			return c.dec.Err()
+		}
+		if num == 0 {
+			return fmt.Errorf("in sort-data: invalid message number 0")
 		}
 		if cmd != nil {
 			cmd.nums = append(cmd.nums, num)
